@@ -37,6 +37,9 @@ CHECKS = {
  "C02": ("deviation-bounded exhaustive enumeration of accepted statements, print -> re-parse -> structural compare",
          "Every statement generated by the grammar model within (2,0,1) deviations (thorough (3,0,1) and (2,0,2)) that the parser accepts is printed with String(), re-parsed and compared structurally with the first AST (password re-inserted for the two redacting printers). A failing round trip is attributed to the smallest sub-expression that does not round-trip on its own, or to the first differing AST path.",
          "Quantifies over statements the grammar model can produce; comparison is structural so pure reformatting cannot alarm.", "3/C02"),
+ "C16": ("exhaustive gap x substitution enumeration over generated statements; exhaustive separator enumeration for ParseQuery",
+         "(a) Every statement of the grammar model within 1 (thorough 2) structural deviations, in default rendering, x every inter-token gap that carries whitespace x each of 16 substitutions (6 whitespace forms incl. CR/CRLF, 4 line-comment forms, 6 block-comment forms): the variant must parse to the same AST as the base rendering. (b) ParseQuery on every join of 1-3 statements from a 12-statement pool with 8 semicolon-bearing and 4 semicolon-less separator forms and leading/trailing forms: the result must be exactly the statements parsed alone, in order, and a missing separator must be an error.",
+         "Gaps are those the grammar model's lexical classification marks as carrying whitespace; base rendering must itself be accepted (C01).", "3/C16"),
 }
 ALL = ["C%02d" % i for i in range(1, 21)]
 NOT_YET = "check not built yet in this revision of /verif (work in progress; see DESIGN.md section 3 for the planned bounded-exhaustive check)"
